@@ -173,6 +173,17 @@ struct Scene {
 	tweeners: Vec<TweenerHandle>,
 	sounds: Vec<StaticSoundHandle>,
 	fxs: Vec<FxH>,
+	/// handles of the effects nested in delay feedback loops (`DelayBuilder::add_feedback_effect`), at any depth, in the
+	/// order in which they were returned (a delay's children before the delay itself); never dropped
+	subfxs: Vec<FxH>,
+}
+
+thread_local! {
+	/// nested handles collected by `add_fx` while an effect list is being built (moved into `Scene::subfxs`)
+	static NESTED: std::cell::RefCell<Vec<FxH>> = std::cell::RefCell::new(vec![]);
+}
+fn take_nested() -> Vec<FxH> {
+	NESTED.with(|n| std::mem::take(&mut *n.borrow_mut()))
 }
 
 /// the handle tables a value / start time may refer to
@@ -409,7 +420,8 @@ fn add_fx<H: FxHost>(host: &mut H, toks: &[&str], i: &mut usize, t: &Tables) -> 
 			let k = pu(a(4));
 			*i += 5;
 			for _ in 0..k {
-				add_fx(&mut b, toks, i, t);
+				let h = add_fx(&mut b, toks, i, t);
+				NESTED.with(|n| n.borrow_mut().push(h));
 			}
 			FxH::Delay(host.add(b))
 		}
@@ -433,6 +445,7 @@ fn add_fx<H: FxHost>(host: &mut H, toks: &[&str], i: &mut usize, t: &Tables) -> 
 }
 
 fn add_fx_list<H: FxHost>(host: &mut H, desc: &str, t: &Tables) -> Vec<FxH> {
+	take_nested();
 	if desc == "-" {
 		return vec![];
 	}
@@ -526,13 +539,156 @@ fn new_scene(tok: &[&str]) -> Scene {
 	let mut mb = MainTrackBuilder::new().volume(none.db(tok[3])).sound_capacity(CAP);
 	let fxs = add_fx_list(&mut mb, tok[4], &none);
 	let mgr = probe::manager(caps, pu(tok[1]) as usize, pu(tok[2]) as u32, mb);
-	Scene { mgr, tracks: vec![], listeners: vec![], ghosts: vec![], sends: vec![], clocks: vec![], lfos: vec![], tweeners: vec![], sounds: vec![], fxs }
+	Scene { mgr, tracks: vec![], listeners: vec![], ghosts: vec![], sends: vec![], clocks: vec![], lfos: vec![], tweeners: vec![], sounds: vec![], fxs, subfxs: take_nested() }
+}
+
+/// one setter of an effect handle (`param` names the method; a name the handle does not have does nothing)
+fn fx_apply(h: &mut FxH, param: &str, v: &str, tw: Tween, t: &Tables) -> bool {
+	match (h, param) {
+		(FxH::Filter(h), "cutoff") => h.set_cutoff(t.f(v), tw),
+		(FxH::Filter(h), "resonance") => h.set_resonance(t.f(v), tw),
+		(FxH::Filter(h), "mix") => h.set_mix(t.mix(v), tw),
+		(FxH::Eq(h), "frequency") => h.set_frequency(t.f(v), tw),
+		(FxH::Eq(h), "gain") => h.set_gain(t.db(v), tw),
+		(FxH::Eq(h), "q") => h.set_q(t.f(v), tw),
+		(FxH::Dist(h), "drive") => h.set_drive(t.db(v), tw),
+		(FxH::Dist(h), "mix") => h.set_mix(t.mix(v), tw),
+		(FxH::Comp(h), "threshold") => h.set_threshold(t.f(v), tw),
+		(FxH::Comp(h), "ratio") => h.set_ratio(t.f(v), tw),
+		(FxH::Comp(h), "attack") => h.set_attack_duration(t.dur(v), tw),
+		(FxH::Comp(h), "release") => h.set_release_duration(t.dur(v), tw),
+		(FxH::Comp(h), "makeup") => h.set_makeup_gain(t.db(v), tw),
+		(FxH::Comp(h), "mix") => h.set_mix(t.mix(v), tw),
+		(FxH::Reverb(h), "rfeedback") => h.set_feedback(t.f(v), tw),
+		(FxH::Reverb(h), "damping") => h.set_damping(t.f(v), tw),
+		(FxH::Reverb(h), "width") => h.set_stereo_width(t.f(v), tw),
+		(FxH::Reverb(h), "mix") => h.set_mix(t.mix(v), tw),
+		(FxH::Vol(h), "volume") => h.set_volume(t.db(v), tw),
+		(FxH::Pan(h), "panning") => h.set_panning(t.pan(v), tw),
+		(FxH::Delay(h), "feedback") => h.set_feedback(t.db(v), tw),
+		(FxH::Delay(h), "mix") => h.set_mix(t.mix(v), tw),
+		_ => return false,
+	}
+	true
+}
+
+// ------------------------------------------------------------------------------------------------
+// C07 oracle: commands to effects nested in delay feedback loops (real code only; the twin prints `ok`)
+// ------------------------------------------------------------------------------------------------
+
+/// A user-defined effect (audio untouched) that receives commands the documented way (`kira::command`) and logs
+/// every command it reads together with the number of the callback (`on_start_processing`) it read it in.
+struct CmdProbe {
+	reader: kira::command::CommandReader<u64>,
+	callbacks: u64,
+	log: std::sync::Arc<std::sync::Mutex<Vec<(u64, u64)>>>,
+}
+impl kira::effect::Effect for CmdProbe {
+	fn on_start_processing(&mut self) {
+		self.callbacks += 1;
+		if let Some(c) = self.reader.read() {
+			self.log.lock().unwrap().push((self.callbacks, c));
+		}
+	}
+	fn process(&mut self, _input: &mut [kira::Frame], _dt: f64, _info: &kira::info::Info) {}
+}
+struct CmdProbeBuilder(std::sync::Arc<std::sync::Mutex<Vec<(u64, u64)>>>);
+impl EffectBuilder for CmdProbeBuilder {
+	type Handle = kira::command::CommandWriter<u64>;
+	fn build(self) -> (Box<dyn kira::effect::Effect>, Self::Handle) {
+		let (w, r) = kira::command::command_writer_and_reader();
+		(Box::new(CmdProbe { reader: r, callbacks: 0, log: self.0 }), w)
+	}
+}
+
+/// `nest <depth 1..> <sr> <ibs> <probe first 0|1> <script>`; script items joined by `,`:
+/// `p<k>` write command `k` through the probe's `CommandWriter`, `v0` / `v1` `set_volume(SILENCE / IDENTITY, instant)`
+/// through the nested `VolumeControlHandle`, `c<frames>` one device callback.
+///
+/// Scene: the main track carries `depth` delays nested in each other's feedback loops (1 ms, fully wet, −6 dB
+/// feedback); the innermost loop holds the command probe and a volume control; a DC sound plays on the main track.
+/// C07, from the documentation only: (a) the probe reads, in callback j, exactly the LAST command written since
+/// callback j−1 and nothing otherwise (`nested_cmd_exactly_once`); (b) once a callback long enough to flush every
+/// delay line has run after `set_volume(SILENCE)`, the fully wet output is exact silence (`nested_cmd_takes_effect`;
+/// premise: it was not silent before).
+fn nest_oracle(tok: &[&str], line: &str, out: &mut Out) {
+	let (depth, sr, ibs, probe_first) = (pu(tok[1]).max(1), pu(tok[2]) as u32, pu(tok[3]) as usize, tok[4] == "1");
+	let log = std::sync::Arc::new(std::sync::Mutex::new(vec![]));
+	let delay = |b: DelayBuilder| b.delay_time(Duration::from_millis(1)).feedback(Decibels(-6.0)).mix(Mix::WET);
+	let mut inner = delay(DelayBuilder::new());
+	let (mut writer, mut vol);
+	if probe_first {
+		writer = inner.add_feedback_effect(CmdProbeBuilder(log.clone()));
+		vol = inner.add_feedback_effect(VolumeControlBuilder::new(Decibels::IDENTITY));
+	} else {
+		vol = inner.add_feedback_effect(VolumeControlBuilder::new(Decibels::IDENTITY));
+		writer = inner.add_feedback_effect(CmdProbeBuilder(log.clone()));
+	}
+	for _ in 1..depth {
+		inner = delay(DelayBuilder::new()).with_feedback_effect(inner);
+	}
+	let mut mb = MainTrackBuilder::new();
+	let _outer = mb.add_effect(inner);
+	let mut mgr = probe::manager(Capacities::default(), ibs, sr, mb);
+	let data = StaticSoundData {
+		sample_rate: sr,
+		frames: (0..200_000).map(|_| kira::Frame::from_mono(0.5)).collect(),
+		settings: StaticSoundSettings::default(),
+		slice: None,
+	};
+	let _snd = mgr.play(data);
+	let delay_frames = (sr as usize).div_ceil(1000).max(1);
+	let flush = 4 * ibs + 4 * delay_frames * depth as usize;
+	let instant = Tween { duration: Duration::ZERO, ..Default::default() };
+	let (mut pending, mut expected, mut callbacks): (Option<u64>, Vec<(u64, u64)>, u64) = (None, vec![], 0);
+	// volume oracle state: last observed output frame, and whether SILENCE is the last volume command
+	let (mut last_nonzero, mut want_silence, mut armed) = (false, false, false);
+	for item in tok[5].split(',') {
+		let (k, v) = item.split_at(1);
+		match k {
+			"p" => {
+				writer.write(pu(v));
+				pending = Some(pu(v));
+			}
+			"v" => {
+				vol.set_volume(if v == "0" { Decibels::SILENCE } else { Decibels::IDENTITY }, instant);
+				// premise of (b): audible before the command
+				armed = v == "0" && last_nonzero;
+				want_silence = v == "0";
+			}
+			_ => {
+				let frames = pu(v) as usize;
+				let o = mgr.backend_mut().callback(frames, 2);
+				callbacks += 1;
+				if let Some(c) = pending.take() {
+					expected.push((callbacks, c));
+				}
+				if frames >= flush {
+					let tail = (o[o.len() - 2], o[o.len() - 1]);
+					if want_silence && armed && (tail.0 != 0.0 || tail.1 != 0.0) {
+						out.oracle_fail("nested_cmd_takes_effect", format!("callback {} still outputs {} {} | {}", callbacks, tail.0, tail.1, line));
+						armed = false;
+					}
+					last_nonzero = tail.0 != 0.0 || tail.1 != 0.0;
+				}
+			}
+		}
+	}
+	let got = log.lock().unwrap().clone();
+	if got != expected {
+		out.oracle_fail("nested_cmd_exactly_once", format!("probe read {:?}, written {:?} | {}", got, expected, line));
+	}
 }
 
 fn exec(sc: &mut Option<Scene>, l: &str, out: &mut Out, collect: &mut Vec<f32>) {
 	let tok: Vec<&str> = l.split_whitespace().collect();
 	if tok[0] == "mgr" {
 		*sc = Some(new_scene(&tok));
+		out.put("ok");
+		return;
+	}
+	if tok[0] == "nest" {
+		nest_oracle(&tok, l, out);
 		out.put("ok");
 		return;
 	}
@@ -545,6 +701,7 @@ fn exec(sc: &mut Option<Scene>, l: &str, out: &mut Out, collect: &mut Vec<f32>) 
 				Ok(h) => {
 					s.sends.push(h);
 					s.fxs.extend(hs);
+					s.subfxs.extend(take_nested());
 					out.put("ok")
 				}
 				Err(_) => out.put("limit"),
@@ -574,6 +731,7 @@ fn exec(sc: &mut Option<Scene>, l: &str, out: &mut Out, collect: &mut Vec<f32>) 
 				Ok(h) => {
 					s.tracks.push(TrkH::Plain(h));
 					s.fxs.extend(hs);
+					s.subfxs.extend(take_nested());
 					let cnt = match parent {
 						Some(p) => s.tracks[p].num_sub_tracks(),
 						None => s.mgr.num_sub_tracks(),
@@ -646,6 +804,7 @@ fn exec(sc: &mut Option<Scene>, l: &str, out: &mut Out, collect: &mut Vec<f32>) 
 				Ok(h) => {
 					s.tracks.push(TrkH::Spatial(h));
 					s.fxs.extend(hs);
+					s.subfxs.extend(take_nested());
 					let cnt = match parent {
 						Some(p) => s.tracks[p].num_sub_tracks(),
 						None => s.mgr.num_sub_tracks(),
@@ -915,35 +1074,30 @@ fn exec(sc: &mut Option<Scene>, l: &str, out: &mut Out, collect: &mut Vec<f32>) 
 		"fx.set" => match idx(tok[1], s.fxs.len()) {
 			Some(i) => {
 				let t = Tables { clocks: &s.clocks, lfos: &s.lfos, tweeners: &s.tweeners };
-				let tw = t.tween(tok[4]);
-				let v = tok[3];
 				let kind = s.fxs[i].kind();
-				let done = match (&mut s.fxs[i], tok[2]) {
-					(FxH::Filter(h), "cutoff") => Some(h.set_cutoff(t.f(v), tw)),
-					(FxH::Filter(h), "resonance") => Some(h.set_resonance(t.f(v), tw)),
-					(FxH::Filter(h), "mix") => Some(h.set_mix(t.mix(v), tw)),
-					(FxH::Eq(h), "frequency") => Some(h.set_frequency(t.f(v), tw)),
-					(FxH::Eq(h), "gain") => Some(h.set_gain(t.db(v), tw)),
-					(FxH::Eq(h), "q") => Some(h.set_q(t.f(v), tw)),
-					(FxH::Dist(h), "drive") => Some(h.set_drive(t.db(v), tw)),
-					(FxH::Dist(h), "mix") => Some(h.set_mix(t.mix(v), tw)),
-					(FxH::Comp(h), "threshold") => Some(h.set_threshold(t.f(v), tw)),
-					(FxH::Comp(h), "ratio") => Some(h.set_ratio(t.f(v), tw)),
-					(FxH::Comp(h), "attack") => Some(h.set_attack_duration(t.dur(v), tw)),
-					(FxH::Comp(h), "release") => Some(h.set_release_duration(t.dur(v), tw)),
-					(FxH::Comp(h), "makeup") => Some(h.set_makeup_gain(t.db(v), tw)),
-					(FxH::Comp(h), "mix") => Some(h.set_mix(t.mix(v), tw)),
-					(FxH::Reverb(h), "rfeedback") => Some(h.set_feedback(t.f(v), tw)),
-					(FxH::Reverb(h), "damping") => Some(h.set_damping(t.f(v), tw)),
-					(FxH::Reverb(h), "width") => Some(h.set_stereo_width(t.f(v), tw)),
-					(FxH::Reverb(h), "mix") => Some(h.set_mix(t.mix(v), tw)),
-					(FxH::Vol(h), "volume") => Some(h.set_volume(t.db(v), tw)),
-					(FxH::Pan(h), "panning") => Some(h.set_panning(t.pan(v), tw)),
-					(FxH::Delay(h), "feedback") => Some(h.set_feedback(t.db(v), tw)),
-					(FxH::Delay(h), "mix") => Some(h.set_mix(t.mix(v), tw)),
-					_ => None,
+				let done = fx_apply(&mut s.fxs[i], tok[2], tok[3], t.tween(tok[4]), &t);
+				out.put(format!("{} {}", if done { "ok" } else { "nop" }, kind))
+			}
+			None => out.put("skip"),
+		},
+		// the same setters through the handle of an effect nested in a delay's feedback loop (any depth)
+		"fx.sub" => match idx(tok[1], s.subfxs.len()) {
+			Some(i) => {
+				let t = Tables { clocks: &s.clocks, lfos: &s.lfos, tweeners: &s.tweeners };
+				let kind = s.subfxs[i].kind();
+				let done = if tok[2] == "mode" {
+					let k = pu(tok[3]);
+					match &mut s.subfxs[i] {
+						FxH::Filter(h) => h.set_mode(filter_mode(k)),
+						FxH::Eq(h) => h.set_kind(eq_kind(k)),
+						FxH::Dist(h) => h.set_kind(dist_kind(k)),
+						_ => {}
+					}
+					true
+				} else {
+					fx_apply(&mut s.subfxs[i], tok[2], tok[3], t.tween(tok[4]), &t)
 				};
-				out.put(format!("{} {}", if done.is_some() { "ok" } else { "nop" }, kind))
+				out.put(format!("{} {}", if done { "ok" } else { "nop" }, kind))
 			}
 			None => out.put("skip"),
 		},
@@ -1123,6 +1277,8 @@ struct G {
 	tweeners: u64,
 	sounds: u64,
 	fxs: u64,
+	/// handles of nested feedback effects so far (the `fx.sub` table)
+	subs: u64,
 	/// allow modulator-linked values
 	mods: bool,
 	listeners: u64,
@@ -1400,7 +1556,147 @@ fn gen_fx_list(rng: &mut Rng, g: &mut G) -> String {
 		return "-".into();
 	}
 	g.fxs += n;
-	(0..n).map(|_| gen_fx(rng, g, 2, fx_kinds())).collect::<Vec<_>>().join(",")
+	let desc = (0..n).map(|_| gen_fx(rng, g, 2, fx_kinds())).collect::<Vec<_>>().join(",");
+	g.subs += count_nested(&desc);
+	desc
+}
+
+/// how many effects of an effect-list descriptor are nested in delays (each yields a handle in the `fx.sub` table)
+fn count_nested(desc: &str) -> u64 {
+	if desc == "-" {
+		return 0;
+	}
+	let all = desc
+		.split([',', ':'])
+		.filter(|t| matches!(*t, "vol" | "pan" | "filter" | "eq" | "dist" | "comp" | "reverb" | "delay"))
+		.count();
+	(all - desc.split(',').count()) as u64
+}
+
+/// a delay whose feedback loop holds 1–3 effects of known kinds (delays nested up to `depth` more levels); returns the
+/// descriptor and the kinds of the nested effects in `fx.sub` table order (a delay's children before the delay)
+fn gen_nested_delay(rng: &mut Rng, depth: u32) -> (String, Vec<&'static str>) {
+	let k = rng.range(1, 3) as u64;
+	let mut s = format!(
+		"delay:{}:f{}:f{}:{}",
+		rng.pick(&[1_000_000u64, 2_000_000, 125_000, 20_833, 5_000_000]),
+		o32(rng.pick(&[-6.0f32, -1.0, -12.0, 0.0])),
+		o32(rng.pick(&[0.5f32, 1.0, 0.25])),
+		k
+	);
+	let mut kinds = vec![];
+	for _ in 0..k {
+		let (d, ks): (String, Vec<&'static str>) = match rng.below(if depth > 0 { 9 } else { 7 }) {
+			0 => (format!("vol:f{}", o32(rng.pick(&[0.0f32, -6.0, 6.0]))), vec!["vol"]),
+			1 => (format!("pan:f{}", o32(rng.pick(&[0.0f32, -1.0, 0.3]))), vec!["pan"]),
+			2 => (
+				format!("filter:{}:f{}:f{}:f{}", rng.below(4), o64(rng.pick(&[200.0, 1000.0, 5000.0])), o64(rng.pick(&[0.0, 0.5])), o32(rng.pick(&[1.0f32, 0.5]))),
+				vec!["filter"],
+			),
+			3 => (
+				format!("eq:{}:f{}:f{}:f{}", rng.below(3), o64(rng.pick(&[100.0, 1000.0, 8000.0])), o32(rng.pick(&[0.0f32, 6.0, -6.0])), o64(rng.pick(&[0.5, 1.0, 4.0]))),
+				vec!["eq"],
+			),
+			4 => (format!("dist:{}:f{}:f{}", rng.below(2), o32(rng.pick(&[0.0f32, 6.0, 24.0])), o32(rng.pick(&[1.0f32, 0.5]))), vec!["dist"]),
+			5 => (
+				format!(
+					"comp:f{}:f{}:f{}:f{}:f{}:f{}",
+					o64(rng.pick(&[-12.0, -24.0, -40.0])),
+					o64(rng.pick(&[2.0, 4.0, 100.0])),
+					rng.pick(&[0u64, 1_000_000, 10_000_000]),
+					rng.pick(&[0u64, 1_000_000, 100_000_000]),
+					o32(rng.pick(&[0.0f32, 6.0])),
+					o32(rng.pick(&[1.0f32, 0.5]))
+				),
+				vec!["comp"],
+			),
+			6 => (format!("reverb:f{}:f{}:f{}:f{}", o64(rng.pick(&[0.9, 0.5])), o64(rng.pick(&[0.1, 0.5])), o64(1.0), o32(rng.pick(&[0.5f32, 1.0]))), vec!["reverb"]),
+			_ => {
+				let (d, mut ks) = gen_nested_delay(rng, depth - 1);
+				ks.push("delay");
+				(d, ks)
+			}
+		};
+		s.push(':');
+		s.push_str(&d);
+		kinds.extend(ks);
+	}
+	(s, kinds)
+}
+
+/// a setter that the handle of a nested effect of this kind has: `fx.sub <k> <param> <value> <tween>`
+fn gen_fx_sub(rng: &mut Rng, g: &G, k: u64, kind: &str) -> String {
+	let (param, v) = match kind {
+		"vol" => ("volume", gen_db(rng, g)),
+		"pan" => ("panning", v32(rng, g, PANS)),
+		"filter" => match rng.below(4) {
+			0 => ("cutoff", v64(rng, g, &[100.0, 4000.0, 20000.0, 20.0])),
+			1 => ("resonance", v64(rng, g, &[0.0, 1.0, 0.7])),
+			2 => ("mix", v32(rng, g, MIXES)),
+			_ => ("mode", rng.below(4).to_string()),
+		},
+		"eq" => match rng.below(4) {
+			0 => ("frequency", v64(rng, g, &[50.0, 500.0, 15000.0])),
+			1 => ("gain", v32(rng, g, &[0.0, 6.0, -12.0])),
+			2 => ("q", v64(rng, g, &[0.5, 1.0, 4.0])),
+			_ => ("mode", rng.below(3).to_string()),
+		},
+		"dist" => match rng.below(3) {
+			0 => ("drive", v32(rng, g, &[0.0, 12.0, -59.0, -60.0])),
+			1 => ("mix", v32(rng, g, MIXES)),
+			_ => ("mode", rng.below(2).to_string()),
+		},
+		"comp" => match rng.below(6) {
+			0 => ("threshold", v64(rng, g, &[0.0, -20.0, -40.0])),
+			1 => ("ratio", v64(rng, g, &[1.0, 8.0, 0.5])),
+			2 => ("attack", format!("f{}", rng.pick(&[0u64, 5_000_000, 50_000_000]))),
+			3 => ("release", format!("f{}", rng.pick(&[0u64, 5_000_000, 50_000_000]))),
+			4 => ("makeup", v32(rng, g, &[0.0, 6.0, -6.0])),
+			_ => ("mix", v32(rng, g, MIXES)),
+		},
+		"reverb" => match rng.below(4) {
+			0 => ("rfeedback", v64(rng, g, &[0.5, 0.9, 0.0])),
+			1 => ("damping", v64(rng, g, &[0.0, 0.5, 1.0])),
+			2 => ("width", v64(rng, g, &[0.0, 0.5, 1.0])),
+			_ => ("mix", v32(rng, g, MIXES)),
+		},
+		_ => {
+			if rng.chance(1, 2) {
+				("feedback", v32(rng, g, &[-6.0, -60.0, -1.0]))
+			} else {
+				("mix", v32(rng, g, MIXES))
+			}
+		}
+	};
+	format!("fx.sub {} {} {} {}", k, param, v, gen_tween(rng, g))
+}
+
+/// the oracle-only op `nest` (see `nest_oracle`): writes and callbacks interleaved, including writes before the first
+/// callback, several writes between two callbacks, callbacks without a write, volume commands followed by a long callback
+fn gen_nest(rng: &mut Rng) -> String {
+	let depth = rng.pick(&[1u64, 1, 2, 2, 3]);
+	let sr = rng.pick(&[8000u64, 22050, 44100, 48000]);
+	let ibs = rng.pick(&[1u64, 7, 16, 64, 128]);
+	let flush = 4 * ibs + 4 * sr.div_ceil(1000) * depth;
+	let mut items: Vec<String> = vec![];
+	let mut next = 1u64;
+	if rng.chance(1, 2) {
+		// audible first (the premise of the volume oracle)
+		items.push(format!("c{}", flush));
+	}
+	for _ in 0..rng.range(2, 6) {
+		for _ in 0..rng.pick(&[0u64, 1, 1, 1, 2, 3]) {
+			if rng.chance(2, 3) {
+				items.push(format!("p{}", next));
+				next += rng.range(1, 9) as u64;
+			} else {
+				items.push(format!("v{}", rng.pick(&[0u64, 0, 1])));
+			}
+		}
+		let small = rng.below(40) + 1;
+		items.push(format!("c{}", rng.pick(&[1, ibs, flush, flush + 3, small])));
+	}
+	format!("nest {} {} {} {} {}", depth, sr, ibs, rng.below(2), items.join(","))
 }
 
 fn gen_play(rng: &mut Rng, g: &mut G) -> String {
@@ -1509,6 +1805,37 @@ fn gen_case(rng: &mut Rng, thorough: bool, stats: &mut Stats, out: &mut Vec<Stri
 		));
 		g.sounds += 1;
 		stats.hit("spatial_bed");
+	}
+	if fx_kinds() >= 8 && rng.chance(1, 3) {
+		// commands to effects nested in a delay's feedback loop (C07): a track whose delay nests effects of known kinds, an
+		// audible sound on it, then setters on the nested handles between callbacks (the first ones before any callback)
+		let (desc, kinds) = gen_nested_delay(rng, 1);
+		let base = g.subs;
+		g.tracks += 1;
+		g.fxs += 1;
+		g.subs += kinds.len() as u64;
+		out.push(format!("track -1 f{} 0 - {}", o32(0.0), desc));
+		out.push(format!(
+			"play {} {} 4000 48000 f{} f{} f{} n=0~end 0 n=0 - imm",
+			g.tracks - 1,
+			rng.pick(&["idx", "lr", "dc=3e800000", "rnd=5"]),
+			o32(-6.0),
+			o64(1.0),
+			o32(0.0)
+		));
+		g.sounds += 1;
+		for _ in 0..rng.range(2, 5) {
+			for _ in 0..rng.range(1, 3) {
+				let j = rng.below(kinds.len() as u64);
+				out.push(gen_fx_sub(rng, &g, base + j, kinds[j as usize]));
+			}
+			out.push(gen_cb(rng, &g));
+		}
+		stats.hit("burst_nested_cmd");
+	}
+	if rng.chance(1, 4) {
+		out.push(gen_nest(rng));
+		stats.hit("nest");
 	}
 	for _ in 0..steps {
 		if spatial_on && rng.chance(1, 25) {
@@ -1819,6 +2146,11 @@ fn gen_case(rng: &mut Rng, thorough: bool, stats: &mut Stats, out: &mut Vec<Stri
 					_ => ("frequency", v64(rng, &g, &[50.0, 500.0, 15000.0])),
 				};
 				format!("fx.set {} {} {} {}", rng.below(g.fxs.max(1)), param, v, gen_tween(rng, &g))
+			}
+			32 if g.subs > 0 && rng.chance(1, 2) => {
+				let kind = rng.pick(&["vol", "pan", "filter", "eq", "dist", "comp", "reverb", "delay"]);
+				let k = rng.below(g.subs);
+				gen_fx_sub(rng, &g, k, kind)
 			}
 			32 if g.fxs > 0 => format!("fx.mode {} {}", rng.below(g.fxs.max(1)), rng.below(4)),
 			33 => {
